@@ -143,6 +143,18 @@ def _qmag(g, hs, s):
     return float(np.abs(g) @ np.abs(s) + 0.5 * np.abs(s) @ np.abs(hs))
 
 
+def _norm_mag(g, hess_prod, s):
+    """Norm-wise magnitude |g||s| + 0.5|H|_F|s|^2 of the quadratic at s."""
+    n = s.size
+    try:
+        h = np.array([_f(hess_prod(e)) for e in np.eye(n)]).T
+        hn = float(np.linalg.norm(h)) if np.all(np.isfinite(h)) else np.inf
+    except Exception:  # noqa: BLE001
+        hn = 0.0
+    ns = float(np.linalg.norm(s))
+    return float(np.linalg.norm(g)) * ns + 0.5 * hn * ns * ns
+
+
 def _hp_noise(hess_prod, vecs):
     """Absolute uncertainty of 0.5*v'H v as evaluated through ``hess_prod``.
 
@@ -179,6 +191,13 @@ def no_increase(name, s, g, hess_prod):
     mag = _qmag(g, hs, s)
     if q > 0:
         q = max(q - 10.0 * _hp_noise(hess_prod, [s]), 0.0)
+    if q > 0 and name == "constrained_tangential_byrd_omojokun":
+        # This solver projects the gradient with orthogonal (QR) bases, whose
+        # rounding errors are norm-wise: a component of g that is 16 decades
+        # above the others (models of barrier-clipped values next to a bound
+        # 1e-8 away) leaks eps*|g| into the projected gradient even when the
+        # step has an exact zero there.  That is rounding, not an increase.
+        q = max(q - 16.0 * EPS * s.size * _norm_mag(g, hess_prod, s), 0.0)
     rel = q / mag if mag > 0 else (0.0 if q <= 0 else np.inf)
     col.zone("C16", "model_increase", max(rel, 0.0),
              f"{name}: q(s)={q!r} > 0 = q(0) (relative {rel:.3g})",
@@ -530,6 +549,35 @@ def fuzz_inputs(rng):
         if rng.random() < 0.5:
             hd[:] = 0.0
         h = np.diag(hd)
+    if n >= 2 and rng.random() < 0.1:
+        # structured family: the Hessian only acts (with negative curvature)
+        # on directions orthogonal to the gradient, as the rank-deficient
+        # least-Frobenius-norm models of real runs do.  The truncated CG step
+        # -delta*g/|g| and the gradient there stay collinear up to rounding
+        # (or up to a tiny angle), while a LARGE rotation on the boundary is
+        # worthwhile: the rotation direction is built from a difference made
+        # of rounding errors.
+        tags.append("orth_negcurv")
+        g = rng.standard_normal(n) * gs
+        k = int(rng.integers(1, n))
+        vv = rng.standard_normal((n, k))
+        vv -= np.outer(g, g @ vv) / (g @ g)
+        if rng.random() < 0.5:
+            vv += 10.0 ** rng.uniform(-12, -3) * rng.standard_normal((n, k))
+        delta = float(scale * 10.0 ** rng.uniform(-6, 6))
+        hh = vv @ vv.T
+        h = -hh / np.linalg.norm(hh, 2) * np.linalg.norm(g) / delta \
+            * 10.0 ** rng.uniform(-2, 2)
+        xl = np.full(n, -np.inf)
+        xu = np.full(n, np.inf)
+        if rng.random() < 0.3:
+            xu[int(rng.integers(n))] = delta * 10.0 ** rng.uniform(0, 1)
+        m = 0
+        aub = np.zeros((0, n))
+        bub = np.zeros(0)
+        if rng.random() < 0.7:
+            me = 0
+            aeq = np.zeros((0, n))
     bubn = rng.standard_normal(m) * scale
     beq = rng.standard_normal(me) * scale
     const = float(rng.standard_normal()) if rng.random() < 0.35 else 0.0
